@@ -98,6 +98,7 @@ fn dtors(evs: &[Ev]) -> Vec<u64> {
                 v.push(id & 0xffff)
             }
             Ev::BadDealloc { .. } | Ev::UnknownDealloc { .. } => v.push(666666),
+            Ev::Overrun { .. } => v.push(555555),
             _ => {}
         }
     }
@@ -229,6 +230,8 @@ fn run1(op: &[u64]) -> Vec<u64> {
     }));
     talloc::record(false);
     let evs = talloc::drain();
+    // a block that the constructor leaked (panic) is never released: look at its red zone now
+    let overrun = talloc::check_redzones();
     let mut out;
     match r {
         Ok(None) => return vec![98],
@@ -236,6 +239,9 @@ fn run1(op: &[u64]) -> Vec<u64> {
             out = describe(&b);
             out.push(SEP);
             out.extend(dtors(&evs));
+            if overrun > 0 {
+                out.push(555555);
+            }
             out.push(SEP);
             // allocations the call left behind besides the result block (plain results were already released)
             let base = 1;
@@ -250,6 +256,9 @@ fn run1(op: &[u64]) -> Vec<u64> {
         Err(_) => {
             out = vec![1, SEP];
             out.extend(dtors(&evs));
+            if overrun > 0 {
+                out.push(555555);
+            }
         }
     }
     out
